@@ -86,6 +86,11 @@ def utf8Ok : Bytes → Bool
       | _ => false
     else false
 
+/-- `code_pattern = ^[12345]\d\d$` on the three digits of a reply line. -/
+def codeOk : Bytes → Bool
+  | d :: _ => 49 ≤ d && d ≤ 53
+  | [] => false
+
 /-- Result of scanning the current `recv_buffer` (the inner `while start_i is not None`). -/
 inductive Scan
   | needMore (code : Option Bytes) (lines : List Bytes) (buf : Bytes)
@@ -105,7 +110,7 @@ def scan (code : Option Bytes) (lines : List Bytes) (buf : Bytes) : Scan :=
       if code.isSome && code != some cd then .bad buf      -- different code: BadReply, line not consumed
       else if sep != 45 then
         let body := joinCRLF (lines ++ [text])
-        if utf8Ok body then .done cd body r else .bad r    -- UnicodeDecodeError -> BadReply
+        if utf8Ok body && codeOk cd then .done cd body r else .bad r    -- UnicodeDecodeError / code outside 1xx-5xx -> BadReply
       else scan (some cd) (lines ++ [text]) r
 termination_by buf.length
 
